@@ -271,6 +271,44 @@ Proof.
     + exists P', q. rewrite B. auto.
 Qed.
 
+(* the coalesced warp segments and their events, packaged *)
+Lemma warp_segments : exists segs : list (Q * Q),
+  segs_props segs /\
+  (forall y, In y es -> e_tag y = tWARP -> exists s e, In (s, e) segs /\ y = mkW s) /\
+  (forall y, In y es -> e_tag y = tWARP_END -> exists s e, In (s, e) segs /\ y = mkWE e) /\
+  (forall s e, In (s, e) segs -> In (mkW s) es) /\
+  (forall s e, In (s, e) segs -> In (mkWE e) es) /\
+  (forall x, in_raw (td_warps td) x <-> exists s e, In (s, e) segs /\ s <= x /\ x < e).
+Proof.
+  destruct (coalesce_union (td_warps td) [] [] (dom_warps td D) segs_nil) as (ss & ees & Ec & Hseg & Hcov); [intros ? []|].
+  destruct (segs_ok_props ss ees Hseg) as (Hprops & _ & Hlen).
+  set (segs := combine (rev ss) (rev ees)). exists segs.
+  assert (Hsp : segs_props segs) by (unfold segs; rewrite (combine_rev ss ees Hlen); apply segs_props_rev; exact Hprops).
+  assert (Hev : forall y, In y (events td) -> _) by (intros y Hy; exact (event_tag_in td (rev ss) (rev ees) y Ec Hy)).
+  assert (Hlen' : length (rev ss) = length (rev ees)) by (rewrite !rev_length; exact Hlen).
+  split; [exact Hsp|]. split; [|split; [|split; [|split]]].
+  - intros y Hy Ht. destruct (Hev y Hy) as (A & _). destruct (A Ht) as (s & Hs & ->).
+    destruct (In_nth_error _ _ Hs) as [i Hi].
+    destruct (nth_error (rev ees) i) as [e|] eqn:Ee; [|apply nth_error_None in Ee; assert (i < length (rev ss))%nat by (apply nth_error_Some; congruence); lia].
+    exists s, e. split; [|reflexivity]. unfold segs. clear -Hi Ee. revert i Hi Ee. generalize (rev ees). induction (rev ss) as [|a l IH]; intros [|c l'] i Hi Ee; destruct i; simpl in *; try discriminate.
+    + inversion Hi; inversion Ee; subst. left. reflexivity.
+    + right. eapply IH; eauto.
+  - intros y Hy Ht. destruct (Hev y Hy) as (_ & A & _). destruct (A Ht) as (e & He & ->).
+    destruct (In_nth_error _ _ He) as [i Hi].
+    destruct (nth_error (rev ss) i) as [s|] eqn:Es; [|apply nth_error_None in Es; assert (i < length (rev ees))%nat by (apply nth_error_Some; congruence); lia].
+    exists s, e. split; [|reflexivity]. unfold segs. clear -Hi Es. revert i Hi Es. generalize (rev ees). induction (rev ss) as [|a l IH]; intros [|c l'] i Hi Es; destruct i; simpl in *; try discriminate.
+    + inversion Hi; inversion Es; subst. left. reflexivity.
+    + right. eapply IH; eauto.
+  - intros s e H. apply (events_unfold td _ _ Ec). left. apply tagged_In. exists (s, 0). split; [|reflexivity].
+    unfold zero. apply in_map_iff. exists s. split; [reflexivity|]. eapply in_combine_l. exact H.
+  - intros s e H. apply (events_unfold td _ _ Ec). right. left. apply tagged_In. exists (e, 0). split; [|reflexivity].
+    unfold zero. apply in_map_iff. exists e. split; [reflexivity|]. eapply in_combine_r. exact H.
+  - intro x.
+    assert (Hraw : in_raw (td_warps td) x <-> in_acc (rev ss) (rev ees) x).
+    { rewrite (in_acc_rev ss ees x Hlen), Hcov. unfold in_acc at 1. simpl. split; [auto|intros [(s & e & [] & _)|H]; exact H]. }
+    rewrite Hraw. unfold in_acc. fold segs. reflexivity.
+Qed.
+
 (* ---- the state reached after everything at or before beat x: its warp flag and its BPM ---- *)
 Lemma warp_flag_at P R x : es = P ++ R -> (forall e, In e P -> e_beat e <= x) -> (forall e, In e R -> x < e_beat e) ->
   (s_warp (St P) = true <-> in_raw (td_warps td) x).
